@@ -49,6 +49,10 @@ def make_exc(name, what=""):
         return ConnectionError(f"sim: connection lost {what}")
     if name == "TimeoutError":
         return TimeoutError(f"sim: timed out {what}")
+    if name == "SQLITE_FULL":
+        import sqlite3
+
+        return sqlite3.OperationalError("database or disk is full")
     code = ERRNOS[name]
     return OSError(code, f"sim: {os.strerror(code)}", what)
 
@@ -633,6 +637,19 @@ class Seam:
         import tqdm
 
         tqdm.tqdm.monitor_interval = 0
+
+        # the persistent remote index (diskcache.Index over SQLite): clearing it is a fault point
+        # (exc "SQLITE_FULL" -> sqlite3.OperationalError: database or disk is full)
+        import diskcache
+
+        real_clear = diskcache.Index.clear
+
+        def sim_index_clear(self_):
+            if S.inside(self_.directory):
+                S.point("idx_clear", self_.directory)
+            return real_clear(self_)
+
+        diskcache.Index.clear = sim_index_clear
 
     # ------------------------------------------------------------------ misc
     def trace_digest(self):
